@@ -92,9 +92,9 @@ def model_checks(ctx, quick):
         "requirement accepts both)"]
     ctx.extra["sensitivity"] = sens
     if not quick:
-        ctx.tlc("ProvDispatchImpl", "ProvDispatchImplFull1.cfg", timeout=3000,
-                label="Impl => Req, 4 valid + 9 refused descriptors, every "
-                "request shape of both types")
+        ctx.tlc("ProvDispatchImpl", "ProvDispatchImplCross.cfg", timeout=3000,
+                label="Impl => Req, descriptors 1,2 (instance-write) and 3 "
+                "(method) + 9 refused, every request shape of both types")
         ctx.tlc("ProvDispatchImpl", "ProvDispatchImplBig.cfg", timeout=3000,
                 label="Impl => Req, instance-write side, larger universe")
         ctx.tlc("ProvDispatchImpl", "ProvDispatchImplBigMeth.cfg",
@@ -103,21 +103,56 @@ def model_checks(ctx, quick):
     ctx.exhaustive = True
 
 
+class Rec:
+    """What the judge needs from one executed history."""
+    def __init__(self, calls, events):
+        self.calls = calls
+        self.events = events
+        self.verdict = None
+
+
+def _work(job):
+    import random
+    import warnings
+    warnings.simplefilter("ignore")
+    seed, histories, nrand = job
+    rng = random.Random(seed)
+    out = []
+    for h in histories:
+        d = H.run_calls(rng, h)
+        out.append((d.calls, d.events))
+    for _ in range(nrand):
+        d = H.run_calls(rng, H.random_calls(rng, rng.randint(4, 22)))
+        out.append((d.calls, d.events))
+    return out
+
+
+def drive(ctx, behs, nrand, nproc=8):
+    """Run the TLC-generated histories and `nrand` seeded random ones on the
+    real code, in `nproc` worker processes (each with its own seeded rng)."""
+    import concurrent.futures
+    import multiprocessing
+    H.schema_pragma_file()                 # create the schema files once
+    jobs = []
+    for w in range(nproc):
+        jobs.append((ctx.rng.randrange(1 << 30), behs[w::nproc],
+                     nrand // nproc + (1 if w < nrand % nproc else 0)))
+    mp = multiprocessing.get_context("fork")
+    with concurrent.futures.ProcessPoolExecutor(nproc, mp_context=mp) as ex:
+        res = list(ex.map(_work, jobs))
+    return [Rec(c, e) for part in res for c, e in part]
+
+
 def run(ctx):
     quick = ctx.tier == "quick"
     model_checks(ctx, quick)
-    drivers = []
-    nsim = 120 if quick else 2500
+    nsim = 120 if quick else 1500
     _, behs = ctx.simulate_behaviours(
-        "ProvDispatchImpl", "ProvDispatchImplSim.cfg", nsim, 13,
-        label="behaviour emission (call sequences)")
-    for b in behs:
-        drivers.append(H.run_calls(ctx.rng, b))
+        "ProvDispatchImpl", "ProvDispatchImplSim.cfg", nsim, 30,
+        label="behaviour emission (call sequences, two-phase choice)")
     ctx.extra["tlc_behaviours_replayed"] = len(behs)
-    nrand = 500 if quick else 12000
-    for i in range(nrand):
-        calls = H.random_calls(ctx.rng, ctx.rng.randint(4, 22))
-        drivers.append(H.run_calls(ctx.rng, calls))
+    nrand = 500 if quick else 8000
+    drivers = drive(ctx, behs, nrand)
     judge(ctx, drivers)
     selftest(ctx, drivers)
     ctx.assumptions += [
@@ -214,10 +249,9 @@ def selftest(ctx, drivers):
     cases = []
 
     def find(pred):
-        for d in drivers:
-            if not d.verdict["ok"]:
-                continue
-            for i, e in enumerate(d.events):
+        for d in drivers:       # accepted traces / accepted prefixes only
+            n = len(d.events) if d.verdict["ok"] else d.verdict["at"] - 1
+            for i, e in enumerate(d.events[:n]):
                 if pred(e):
                     return d, i
         return None, None
@@ -247,8 +281,16 @@ def selftest(ctx, drivers):
                       "rejection of an undeclared / mistyped property "
                       "turned into success"))
     if len(cases) < 3:
-        raise vlib.MachineryError("self-test: not enough recorded material "
-                                  "(%d cases)" % len(cases))
+        if ctx.violations:
+            # a tree that fails this badly leaves nothing accepted to corrupt
+            ctx.extra["selftest_corrupted_traces"] = [
+                "only %d of 3 corruptions possible: too few accepted events "
+                "(deviations are being reported)" % len(cases)]
+            if not cases:
+                return
+        else:
+            raise vlib.MachineryError("self-test: not enough recorded "
+                                      "material (%d cases)" % len(cases))
     n0, e0 = ctx.traces, ctx.events
     vs = ctx.validate_traces("ProvDispatchTrace", "ProvDispatchTrace.cfg",
                              [c[0] for c in cases],
@@ -263,7 +305,8 @@ def selftest(ctx, drivers):
                 "%s)" % (what, v, at, clause))
         res.append("%s -> rejected at event %d with %s" %
                    (what, at, ", ".join(v["clauses"])))
-    ctx.extra["selftest_corrupted_traces"] = res
+    ctx.extra["selftest_corrupted_traces"] = \
+        ctx.extra.get("selftest_corrupted_traces", []) + res
 
 
 def replay(rep):
